@@ -93,6 +93,18 @@ pub fn verdict_of(d: &DiffResult, nontrivial: bool, ctx: &mut CaseCtx) -> Verdic
                 hash: fnv64(d.source.as_bytes()),
             }
         }
+        DiffVerdict::Discard("compile error") => {
+            // the generators only produce programs the language accepts (the reference interpreter has
+            // just run this one): a rejection is a failure of the scanner or the compiler
+            let msgs = match d.yarel.as_ref().map(|o| &o.end) {
+                Some(crate::yrun::End::Err(_, m)) => m.clone(),
+                _ => vec![],
+            };
+            Verdict::Fail {
+                sig: "valid-program-rejected".into(),
+                detail: format!("a generated program that the reference interpreter runs was rejected by the compiler: {:?}\n{}", msgs, describe(d)),
+            }
+        }
         DiffVerdict::Discard(w) => {
             ctx.label(&format!("discard:{}", w));
             Verdict::Discard(w)
